@@ -829,7 +829,7 @@ func C01(c *vf.Ctx) {
 			{Small: true, Soft: true, GateU: true, Threads: thr3},
 			{Small: true, Soft: true, Points: []string{"conn.created"}, Threads: thr3},
 		},
-		scen:    []string{"invoke-overtaken-after-cancel"},
+		scen:    []string{"invoke-overtaken-after-cancel", "rawrecv-kept-while-traffic-continues"},
 		kinds:   []string{"start", "hstep", "relw", "deliver", "relu", "cancel", "point"},
 		weights: map[string]int{"newstream": 2, "invoke": 1, "op": 10, "hstep": 8, "relw": 10, "deliver": 10, "relu": 4, "cancel": 1},
 		tail: func(w *sys.World, rng *rand.Rand, ts *tailState) {
@@ -985,7 +985,7 @@ func C02(c *vf.Ctx) {
 			{Small: true, Soft: true, Points: []string{"manager.reader.dispatch", "manager.acquire.got"}, Threads: thr3}, // late packets meet a reader preempted before its dispatch
 			{Small: true, Soft: true, GateU: true, Threads: []string{"c1", "c2", "c3", "c4"}},                            // user code (Marshal, Unmarshal) holds a stream's locks while the next RPC starts
 		},
-		scen:    []string{"invoke-overtaken-after-cancel", "metadata-then-abandoned", "queued-call-cancelled", "terminal-op-queued-behind-marshal", "decoding-with-next-message-queued"},
+		scen:    []string{"invoke-overtaken-after-cancel", "metadata-then-abandoned", "queued-call-cancelled", "terminal-op-queued-behind-marshal", "decoding-with-next-message-queued", "rawrecv-kept-while-traffic-continues"},
 		kinds:   []string{"start", "hstep", "relw", "deliver", "cancel", "point"},
 		weights: map[string]int{"invoke": 5, "newstream": 3, "op": 6, "hstep": 8, "relw": 12, "deliver": 8, "cancel": 3, "point": 2},
 		tail: func(w *sys.World, rng *rand.Rand, ts *tailState) {
